@@ -98,6 +98,10 @@ def main():
         # ---- C/D/E. rebuild, correspond, witnesses (inside the property module)
         common.use_repo_package()
         ctx.t0 = time.time()   # the time budgets of the modules start after the Lean phase (cold builds are slow)
+        known_keys = set(common.known_findings(prop)[0])
+
+        def unlisted_now():
+            return [v for v in ctx.violations if v["key"] not in known_keys]
         try:
             mod.run(ctx)
         except (CheckBroken, common.EngineBuildError):
@@ -105,7 +109,7 @@ def main():
         except Exception as ex:
             # a crash of the harness after the real code already failed the property must not hide the failure
             msg = str(ex)
-            if ctx.violations:
+            if unlisted_now():
                 ctx.notes.append("harness raised after recording a failing input: " + traceback.format_exc()[-600:])
             elif isinstance(ex, (ValueError, OverflowError)) and any(w in msg for w in ("NaN", "nan", "Infinity", "infinity")):
                 # the real code handed back a non-finite number where the model has a rational: the correspondence cannot be
@@ -115,15 +119,15 @@ def main():
             else:
                 raise
         # ---- failing-input search when something is broken but no failing input is known yet
-        if ctx.broken and not ctx.violations and hasattr(mod, "search"):
+        if ctx.broken and not unlisted_now() and hasattr(mod, "search"):
             mod.search(ctx)
         # generic widening of that search: an obligation no longer checks and no input failed yet -> the same generators
         # again under further seeds (bounded in time); never reached on a tree where everything checks
-        if ctx.broken and not ctx.violations:
+        if ctx.broken and not unlisted_now():
             import random
             t_end = time.time() + (150 if args.tier == "quick" else 900)
             extra = 0
-            while not ctx.violations and time.time() < t_end and extra < 8:
+            while not unlisted_now() and time.time() < t_end and extra < 8:
                 extra += 1
                 ctx.seed = seed * 1000 + 7919 * extra
                 ctx.rng = random.Random((ctx.seed * 1000003) ^ common.hash_str(prop))
@@ -133,7 +137,7 @@ def main():
                 except (CheckBroken, common.EngineBuildError):
                     raise
                 except Exception:
-                    if not ctx.violations:
+                    if not unlisted_now():
                         ctx.notes.append("widened search (seed %d) raised: %s" % (ctx.seed, traceback.format_exc()[-400:]))
                         break
             ctx.extra["widened_search_runs"] = extra
